@@ -74,10 +74,14 @@ func runHookWitness(c *core.Ctx, order string) {
 	defer taskCtx.Release()
 	var cbN atomic.Int32
 	var cbErr atomic.Bool
+	var cbFirst atomic.Bool
 	pipe := query.NewExecutePipeline(trackerpkg.NewStageTracker(taskCtx), func(err error) {
-		if cbN.Add(1) == 1 {
+		// the argument is stored BEFORE the counter moves: the harness reads cbErr as soon as it sees
+		// cbN > 0 (round 12 correction: the other order let it read a stale `false`)
+		if cbFirst.CompareAndSwap(false, true) {
 			cbErr.Store(err != nil)
 		}
+		cbN.Add(1)
 	})
 	gates := make([]chan struct{}, len(order))
 	var children []stage.Stage
